@@ -371,7 +371,17 @@ impl<'a, 'tcx> ThirDump<'a, 'tcx> {
         let mut o: Vec<(&'static str, J)> = Vec::new();
         let k = |o: &mut Vec<(&'static str, J)>, name: &str| o.push(("k", s(name)));
         match &e.kind {
-            ExprKind::Scope { value, .. } => return self.expr(*value),
+            ExprKind::Scope { value, region_scope, .. } => {
+                // the scope id is what `break 'label` / `continue 'label` name: keep it on loops
+                let mut j = self.expr(*value);
+                if let J::Obj(ref mut fields) = j {
+                    let is_loop = fields.iter().any(|(k_, v_)| *k_ == "k" && matches!(v_, J::Str(t) if t == "Loop"));
+                    if is_loop && !fields.iter().any(|(k_, _)| *k_ == "scope") {
+                        fields.push(("scope", n(region_scope.local_id.as_u32())));
+                    }
+                }
+                return j;
+            }
             ExprKind::Use { source } | ExprKind::NeverToAny { source } => return self.expr(*source),
             ExprKind::PlaceTypeAscription { source, .. } | ExprKind::ValueTypeAscription { source, .. } => {
                 return self.expr(*source);
@@ -511,13 +521,17 @@ impl<'a, 'tcx> ThirDump<'a, 'tcx> {
                 k(&mut o, "RawBorrow");
                 o.push(("e", self.expr(*arg)));
             }
-            ExprKind::Break { value, .. } => {
+            ExprKind::Break { value, label } => {
                 k(&mut o, "Break");
+                o.push(("label", n(label.local_id.as_u32())));
                 if let Some(v) = value {
                     o.push(("e", self.expr(*v)));
                 }
             }
-            ExprKind::Continue { .. } => k(&mut o, "Continue"),
+            ExprKind::Continue { label } => {
+                k(&mut o, "Continue");
+                o.push(("label", n(label.local_id.as_u32())));
+            }
             ExprKind::ConstContinue { .. } => k(&mut o, "ConstContinue"),
             ExprKind::Return { value } => {
                 k(&mut o, "Return");
